@@ -19,7 +19,7 @@ import ast
 from typing import Any
 
 from .context import Analysis
-from .loader import FuncInfo, const_eval
+from .loader import EXECUTED, FuncInfo, const_eval
 from .minieval import MiniEval, Obj, Raised, Unsupported, _Break, _Continue, _Return
 
 
@@ -140,6 +140,7 @@ class ModelInterp(MiniEval):
 
     # ------------------------------------------------------------- functions
     def call_fn(self, fn: FuncInfo, args: list, kwargs: dict | None = None) -> Any:
+        EXECUTED.add(fn.qualname)
         self.modstack.append(fn.module.name)
         self.depth += 1
         if self.depth > 60:
@@ -437,6 +438,7 @@ class ModelInterp(MiniEval):
         if isinstance(b.recv, Recorder):
             raise Unsupported('bound recorder method escaped')
         fn = b.fn
+        EXECUTED.add(fn.qualname)
         self.modstack.append(fn.module.name)
         self.depth += 1
         if self.depth > 60:
